@@ -60,6 +60,15 @@ theorem C32_versions_only_grow (cfg : Cfg) (hr : cfg.recheck = true) (s : State)
   have e := (inv_run hr (reachable_inv hr h) sched).2
   exact ⟨e.pairs, e.tbl_mono, e.tables_eq⟩
 
+/-- **(I3, across versions)** In every reachable state every `offset ↦ text` pair of EVERY inner
+table version ever created — superseded blocks that readers may still hold (an outstanding
+`AtomString::Dynamic` points into one), and a grown copy that is not yet published — is a pair of
+the published block: all versions agree on the text of an offset. -/
+theorem C32_all_versions_agree (cfg : Cfg) (hr : cfg.recheck = true) (s : State)
+    (h : Reachable cfg s) (i : Nat) (hi : i < s.sh.ninners) (o : Nat) (x : Text)
+    (hx : (s.sh.inners i).block.textAt o = some x) : s.sh.blk.textAt o = some x :=
+  (reachable_inv hr h).g.vers i hi o x hx
+
 /-- **(I4) Mutual exclusion of writers**: in every reachable state two threads that are both
 between `lock` and `unlock` are the same thread (and that thread owns the lock). -/
 theorem C32_mutual_exclusion (cfg : Cfg) (hr : cfg.recheck = true) (s : State)
